@@ -19,7 +19,7 @@ THEOREMS = [
     "Mesa.Collect.C18_collect_tablerow_rejects_exactly",
     "Mesa.Collect.C18_collect_tablerow_reject_history",
 ]
-COUNTS = {"quick": 2500, "thorough": 60000}
+COUNTS = {"quick": 2500, "thorough": 200000}
 TRUSTED = [
     "pandas: DataFrame(dict of equal-length lists) and DataFrame.from_records(list of tuples, columns, index) only re-index what they are given (frames are compared as index tuples / column names / values on every run)",
     "copy.deepcopy detaches a stored model-level value from the live object (exercised: list attributes are mutated in place after every collect)",
